@@ -907,7 +907,11 @@ func (r *envelopingReader) prepareNext() error {
 			limit := int64(r.rw.op.methodConf.maxMsgBufferBytes)
 			length := r.rw.op.contentLen
 			if length > limit {
-				return bufferLimitError(limit)
+				// Tell the client, too: returning the error only fails the
+				// backend's read of the request body.
+				err := bufferLimitError(limit)
+				r.rw.reportError(err)
+				return err
 			}
 			r.current = &hardLimitReader{r: r.r, rw: r.rw, limit: r.rw.op.contentLen, makeError: contentLengthError}
 			env.length = uint32(length) //nolint:gosec // Length is validated above.
